@@ -60,3 +60,10 @@ TEXT.update({
         'level': 'Trees mixing checked and unchecked nodes: any class/number/order of children on unchecked nodes must never raise and must serialise in insertion order; byte identity with a checked twin for schema-valid words the twin accepts in order; checked nodes nested under unchecked ones still reject what the model says is illegal.',
         'ref': 'DESIGN.md section 6 C18', 'note': _NOTE_COMMON, 'technique': _TECH_HIST + '; checked/unchecked twin'},
 })
+
+TEXT.update({
+    'C17': {
+        'level': 'Fault enumeration per sampled document: for each seeded complete score (5-60 elements, half with non-ASCII text) every node is broken in turn for each kind of requirement (child, attribute) before write(); every default text encoding (utf-8, ascii, latin-1, cp1252) x every prior destination state (absent, empty, old score, arbitrary bytes) fault-free; asynchronous exceptions at sampled function entries inside write(); SimFS errors at open, at each write call, at close, short writes, ENOSPC, read-only, directory. Each case runs on a forked copy of the built document. Plus two real sub-interpreters (C.UTF-8 and LC_ALL=C -X utf8=0) that import, write and parse. Complete only relative to the sampled documents.',
+        'ref': 'DESIGN.md section 6 C17', 'note': _NOTE_COMMON + ' SimFS is a model of open/write/close/replace/remove on one virtual mount.',
+        'technique': 'deterministic simulation with fault injection: SimFS (in-memory file system with injected errors, short writes, default-encoding emulation), crash points = every node failing validation in turn + async exceptions at function entries (sys.monitoring), real-locale sub-interpreters'},
+})
